@@ -129,6 +129,28 @@ Second generation (class GenR; Gen/CommitmentPolicyGen.v): functions over struct
                read as the body of a function of the variables they use - the caller of the translator names the marker
                and the variables and checks their declarations in the part that is not read (types from the signature,
                `let mut beneficial_sum = 0u64;`, no rebinding).  What the unread part computes is not covered.
+  added for Gen/NodePaymentsGen.v (maps and sets; the node's payment check):
+               types `Map<K, V>` / `OrderedMap<K, V>` / `HashMap` / `BTreeMap` with an opaque key type (an association list
+               with one entry per key, Base/Rust.v: map_get, map_insert, map_keys, map_values), `UnorderedSet<K>` /
+               `OrderedSet<K>` (a duplicate-free list: set_extend), `Arc<dyn Validator>`, `Option<&S>`, `Option<(u32, u32)>`;
+               `m.get(&k)`, `m.contains_key(&k)`, `m.is_empty()`, `m.values()[.into_iter()].sum::<u64>()` (sum_p: the
+               outcome does not depend on the order - Proofs/RustFacts.v sum_p_perm), `opt.map(|a| *a)`,
+               `opt.map(|x| x.field)`, `opt.unwrap_or(v)`, `opt.map_or(d, |e| e.min(x) | e.max(x))`, `a.checked_add(b)`
+               as a value with `.expect(..)`; method names with a type argument (`sum::<u64>`, `collect::<Vec<_>>`);
+               locals `UnorderedSet::new()` / `Vec::new()` updated by `s.extend(m.keys());` / `v.push(x);`
+               `for x in set.iter() { .. }`: the set is visited in the order `iter_order set`, an uninterpreted parameter
+               of which the theorems only assume that it permutes its argument (a hash set's order is arbitrary);
+               `if c {..} [else {..}]`, `if let Err(e) = <Result as bool> {..}`, `if let Some(x) = opt {..}` whose
+               blocks assign ONE variable of the enclosing block (or `self`): the variable is the value of the statement;
+               `let (a, b) = if let Some(p) = opt { stmts; value } else { value };` whose blocks may leave the function;
+               `if let Some((a, b)) = e {..}`; `match (a, b) { (Some(x), Some(y)) => v1, _ => v2 }` as a value;
+               calls `validator.m(..)` on the `dyn Validator` parameter are calls of the translated methods of
+               SimpleValidator the caller of the translator lists (validate_payment_balance of Gen/PaymentsGen.v,
+               Result as bool; validate_payment_cltv; enforce_balance); `policy_err!(validator, ..)`;
+               a format argument that only renders a local vector of opaque values
+               (`v.into_iter().map(|h| h.0.to_hex()).collect::<Vec<_>>()`);
+               `&mut self` methods of a struct without a value (`self.f = e;`, `self.map_field.insert(k, v);`): the
+               updated record is the value of the generated function.
   refused    : a Rust binder whose name the generated text uses itself (prof, warn, policy, Val, t<digits>, gen_.., ..), a
                `let` that shadows a variable in scope, `return`, `else`
                branches of statements, `match`, `&mut`, closures anywhere else, struct literals, everything not listed.
@@ -217,6 +239,20 @@ def norm_type(t, known=None):
             return known[t]
         if t == "String":
             return "str"
+        m = re.match(r"^Option<\((u32|u64),(u32|u64)\)>$", t)
+        if m:
+            return "opt:tuple:%s,%s" % (m.group(1), m.group(2))
+        m = re.match(r"^(?:Map|OrderedMap|HashMap|BTreeMap)<&?[A-Z][A-Za-z0-9]*,(.+)>$", t)
+        if m:
+            return "map:" + norm_type(m.group(1), known)      # keys: opaque identities
+        if re.match(r"^(?:UnorderedSet|OrderedSet|HashSet|BTreeSet)<&?[A-Z][A-Za-z0-9]*>$", t):
+            return "set"
+        m = re.match(r"^Arc<dyn([A-Z][A-Za-z0-9]*)>$", t)
+        if m:
+            return "dyn:" + m.group(1)
+        m = re.match(r"^Option<&([A-Z][A-Za-z0-9]*)>$", t)
+        if m and known.get(m.group(1), "").startswith("struct:"):
+            return "opt_struct:" + m.group(1)
         m = re.match(r"^Option<([A-Z][A-Za-z0-9]*)>$", t)
         if m and known.get(m.group(1), "").startswith("struct:"):
             return "opt_struct:" + m.group(1)
@@ -420,7 +456,7 @@ class P:
                     raise GenError("an attribute on anything but a statement is outside the fragment")
                 stmts.append(("attr", "".join(toks), inner_ss[0]))
                 continue
-            if self.known is not None and self.at("match"):
+            if self.known is not None and self.at("match") and self.peek(1)[1] != "(":
                 stmts.append(self.match_stmt())
                 continue
             if self.at("const"):
@@ -480,7 +516,7 @@ class P:
                 stmts.append(("return", e))
             elif self.at("if"):
                 e = self.if_expr()
-                if e[0] in ("if_stmt", "iflet_stmt", "ifelse_stmt", "iflet_tuple"):
+                if e[0] in ("if_stmt", "iflet_stmt", "ifelse_stmt", "iflet_tuple", "iflet_err"):
                     stmts.append(e)
                 elif self.at("}") or self.at(";"):
                     tail = e
@@ -595,6 +631,42 @@ class P:
                     raise GenError("an `if let` block with a value is outside the fragment")
                 a = (a[0] + [("expr", a[1])], None)
             return ("iflet_tuple", pats, e, a)
+        if self.at("let") and self.known is not None and self.peek(1)[1] == "Err":
+            # if let Err(x) = e { .. } : without else
+            self.eat("let")
+            self.eat("Err")
+            self.eat("(")
+            x = self.eat(kind="id")
+            self.eat(")")
+            self.eat("=")
+            e = self.expr()
+            a = self.block()
+            if self.at("else") or a[1] is not None:
+                raise GenError("`if let Err(..) = .. {}` with else or a value is outside the fragment")
+            return ("iflet_err", x, e, a)
+        if self.at("let") and self.known is not None and self.peek(1)[1] == "Some" and self.peek(3)[1] == "(":
+            # if let Some((a, b)) = e { .. } : without else
+            self.eat("let")
+            self.eat("Some")
+            self.eat("(")
+            self.eat("(")
+            names = []
+            while not self.at(")"):
+                names.append(self.eat(kind="id"))
+                if self.at(","):
+                    self.eat(",")
+            self.eat(")")
+            self.eat(")")
+            self.eat("=")
+            e = self.expr()
+            a = self.block()
+            if self.at("else"):
+                raise GenError("`if let Some((..)) = .. {} else {}` is outside the fragment")
+            if a[1] is not None:
+                if a[1][0] != "macro":
+                    raise GenError("an `if let` block with a value is outside the fragment")
+                a = (a[0] + [("expr", a[1])], None)
+            return ("iflet_stmt", ("tuple_pat", names), e, a)
         if self.at("let"):
             self.eat("let")
             self.eat("Some")
@@ -620,7 +692,7 @@ class P:
         self.eat("else")
         if self.at("if"):
             inner = self.if_expr()
-            b = ([inner], None) if inner[0] in ("if_stmt", "iflet_stmt", "ifelse_stmt", "iflet_tuple") else ([], inner)
+            b = ([inner], None) if inner[0] in ("if_stmt", "iflet_stmt", "ifelse_stmt", "iflet_tuple", "iflet_err") else ([], inner)
             if b[1] is None:
                 return ("ifelse_stmt", c, a, b)
             return ("if", c, a, b)
@@ -702,6 +774,24 @@ class P:
                     a = ("field", a, self.eat(kind="num"))       # x.0 : the field of a tuple struct
                     continue
                 name = self.eat(kind="id")
+                if self.known is not None and self.at("::") and self.peek(1)[1] == "<":
+                    # .name::<T>(..) : the type argument only selects an instance (sum::<u64>, collect::<Vec<_>>)
+                    self.eat("::")
+                    self.eat("<")
+                    depth, targ = 1, ""
+                    while depth:
+                        kk, t = self.peek()
+                        if kk == "eof":
+                            raise GenError("unterminated type argument")
+                        self.i += 1
+                        if t == "<":
+                            depth += 1
+                        elif t == ">":
+                            depth -= 1
+                            if depth == 0:
+                                break
+                        targ += t
+                    name = "%s::<%s>" % (name, targ)
                 if self.at("("):
                     self.eat("(")
                     args = []
@@ -775,6 +865,26 @@ class P:
             # match e { Some(x) => value, None => value } with expressions as arms
             self.eat("match")
             scrut = self.expr()
+            if scrut[0] == "tuple" and len(scrut[1]) == 2:
+                # match (a, b) { (Some(x), Some(y)) => v1, _ => v2 }
+                self.eat("{")
+                self.eat("(")
+                self.eat("Some"); self.eat("("); x1 = self.eat(kind="id"); self.eat(")")
+                self.eat(",")
+                self.eat("Some"); self.eat("("); x2 = self.eat(kind="id"); self.eat(")")
+                self.eat(")")
+                self.eat("=>")
+                v1 = self.expr()
+                if self.at(","):
+                    self.eat(",")
+                if self.eat(kind="id") != "_":
+                    raise GenError("only `(Some(x), Some(y)) => .., _ => ..` is inside the fragment")
+                self.eat("=>")
+                v2 = self.expr()
+                if self.at(","):
+                    self.eat(",")
+                self.eat("}")
+                return ("match_pair", scrut[1][0], scrut[1][1], x1, x2, v1, v2)
             self.eat("{")
             arms = {}
             while not self.at("}"):
@@ -961,6 +1071,10 @@ class Gen:
                 return [], "true", "result_unit"
             if e[1] == "Some" and len(e[2]) == 1:
                 b1, a, ta = self.expr(e[2][0], env)
+                if ta in ("u32", "u64"):
+                    return b1, "(Some %s)" % a, "opt_" + ta
+                if ta.startswith("tuple:"):
+                    return b1, "(Some %s)" % a, "opt:" + ta
                 if ta != "id":
                     raise GenError("Some(..) of a %s is outside the fragment" % ta)
                 return b1, "(Some %s)" % a, "opt_id"
@@ -1089,11 +1203,36 @@ class Gen:
                 raise GenError("format argument %r is outside the fragment" % (toks,))
             if ex[0] == "macro" and ex[1] in ("containing_function", "short_function") and ex[2] == [[]]:
                 continue                     # the name of the enclosing function: a constant string
+            if self.renders_only(ex, env):
+                continue                     # e.g. v.into_iter().map(|h| h.0.to_hex()).collect::<Vec<_>>() over opaque values
             b, c, t = self.expr(ex, env)
             if t not in self.PRINTABLE:
                 raise GenError("format argument of type %s is outside the fragment" % t)
             binds += b
         return binds
+
+    def renders_only(self, ex, env):
+        """an iterator chain over a local vector of opaque values that only renders them (into_iter / iter / map with a
+        closure made of field reads and to_hex / to_string / clone / collect): cannot panic, has no effect"""
+        chain = []
+        while ex[0] == "mcall":
+            chain.append((ex[2].split("::<")[0], ex[3]))
+            ex = ex[1]
+        if not (ex[0] == "var" and env.get(ex[1]) == "vec_id" and chain):
+            return False
+        for name, args in chain:
+            if name in ("into_iter", "iter", "collect") and not args:
+                continue
+            if name == "map" and len(args) == 1 and args[0][0] == "closure" and len(args[0][1]) == 1:
+                body = args[0][2]
+                while body[0] in ("mcall", "field"):
+                    if body[0] == "mcall" and (body[2] not in ("to_hex", "to_string", "clone") or body[3]):
+                        return False
+                    body = body[1]
+                if body == ("var", args[0][1][0]):
+                    continue
+            return False
+        return True
 
     def leave(self, code):
         return "Val (self, %s)" % code if self.cur["selfmode"] == "mut" else "Val %s" % code
@@ -1654,6 +1793,9 @@ class GenR(Gen):
                                           #   methods of trait objects / foreign types, uninterpreted; the receiver is
                                           #   the first argument of the parameter
         self.format_tag = None            # the tag transaction_format_error gives its errors (read from policy/error.rs)
+        self.validator_calls = {}         # method of a `dyn Validator` value -> (Gallina head, parsed fn, kind): translated
+                                          #   methods of the validator the trait object is (kind "bool": legacy Result-as-bool)
+        self.new_fns = {}                 # path -> (Gallina text, type) for constructors of empty values (Vec::new ..)
 
     def coq_type(self, t):
         if t in WIDTH or t == "id":
@@ -1674,12 +1816,22 @@ class GenR(Gen):
             return "(result N)"
         if t.startswith("dyn:") or t.startswith("ext:"):
             return "N"                        # a trait object / a foreign value: an identity
+        if t.startswith("map:"):
+            return "(list (N * %s))" % self.coq_type(t[4:])
+        if t in ("set", "vec_id", "list:id", "list:u64"):
+            return "(list N)"
+        if t == "ordfn":
+            return "(list N -> list N)"
+        if t == "res_bool":
+            return "bool"
         if t == "vec_u32":
             return "(list N)"
         if t == "res_opaque:bool":
             return "(option bool)"            # Result<bool, foreign error>: None = Err
         if t.startswith("opt_struct:"):
             return "(option %s)" % self.coq_type("struct:" + t[11:])
+        if t.startswith("opt:"):
+            return "(option %s)" % self.coq_type(t[4:])
         if t == "comp:result_unit":
             return "(trap (result unit))"
         if t.startswith("fn:"):
@@ -1708,7 +1860,7 @@ class GenR(Gen):
     def tagged(self):
         return self.cur["ret"] in ("result_unit", "result:id", "result:u64")
 
-    PRINTABLE = Gen.PRINTABLE + ("id", "opt_id", "vec_u32", "ext:LockTime", "ext:Version")   # {} / {:?} of a foreign value: assumed not to panic
+    PRINTABLE = Gen.PRINTABLE + ("id", "opt_id", "vec_u32", "ext:LockTime", "ext:Version", "vec_id", "opt_u64", "opt_u32")   # {} / {:?} of a foreign value: assumed not to panic
     LOGGING = ("debug", "trace", "info", "warn", "error", "dbgvals", "policy_log")
 
     def proj(self, sn, f, c):
@@ -1736,6 +1888,8 @@ class GenR(Gen):
             return b, "(negb %s)" % c, "bool"
         if k == "var":
             x = e[1]
+            if x == "None" and want and want.startswith("opt:"):
+                return [], "None", want
             if x in env:
                 return [], x, env[x]
             if x in self.opaque_fns and not self.opaque_fns[x][1]:
@@ -1794,6 +1948,8 @@ class GenR(Gen):
                         raise GenError("%s: a Result that is not followed by `?` is outside the fragment" % pname)
                     self.use_opaque(pname, pty)
                     return [], pname, pty
+            if e[1] in self.new_fns and not e[2]:
+                return [], self.new_fns[e[1]][0], self.new_fns[e[1]][1]
             if e[1] in self.opaque_fns:
                 pname, atys, rty = self.opaque_fns[e[1]]
                 if len(e[2]) != len(atys):
@@ -1809,6 +1965,10 @@ class GenR(Gen):
                 return bs, "(%s)" % " ".join([pname] + cs) if cs else pname, rty
             if e[1] == "Some" and len(e[2]) == 1:
                 b1, a, ta = self.expr(e[2][0], env)
+                if ta in ("u32", "u64"):
+                    return b1, "(Some %s)" % a, "opt_" + ta
+                if ta.startswith("tuple:"):
+                    return b1, "(Some %s)" % a, "opt:" + ta
                 if ta != "id":
                     raise GenError("Some(..) of a %s is outside the fragment" % ta)
                 return b1, "(Some %s)" % a, "opt_id"
@@ -1838,6 +1998,89 @@ class GenR(Gen):
                 if not tv.startswith("vec:"):
                     raise GenError("len of a %s" % tv)
                 return b, "(len_of %s)" % v, "usize"
+            base = name.split("::<")[0]
+            if base == "sum" and not args:
+                # <map>.values()[.into_iter()].sum::<u64>() : the outcome is the same for every order of the values
+                r = recv
+                if r[0] == "mcall" and r[2] == "into_iter" and not r[3]:
+                    r = r[1]
+                if name.replace(" ", "") in ("sum::<u64>", "sum") and r[0] == "mcall" and r[2] == "values" and not r[3]:
+                    b, v, tv = self.expr(r[1], env)
+                    if tv == "map:u64":
+                        x = self.fresh()
+                        return b + [(x, "sum_p prof (map_values %s)" % v)], x, "u64"
+                raise GenError(".sum() on anything but the u64 values of a map is outside the fragment")
+            if name == "get" and len(args) == 1:
+                save_ = self.tmp
+                b, v, tv = self.expr(recv, env)
+                if tv.startswith("map:"):
+                    b2, k_, tk = self.expr(args[0], env)
+                    if tk != "id":
+                        raise GenError("map.get(..) with a key of type %s" % tk)
+                    vt = tv[4:]
+                    ot = {"u64": "opt_u64"}.get(vt, "opt_" + vt if vt.startswith("struct:") else None)
+                    if ot is None:
+                        raise GenError("a map of %s is outside the fragment" % vt)
+                    return b + b2, "(map_get %s %s)" % (v, k_), ot
+                self.tmp = save_
+            if name == "contains_key" and len(args) == 1:
+                b, v, tv = self.expr(recv, env)
+                b2, k_, tk = self.expr(args[0], env)
+                if not tv.startswith("map:") or tk != "id":
+                    raise GenError("contains_key on a %s with a %s" % (tv, tk))
+                return b + b2, "(map_contains %s %s)" % (v, k_), "bool"
+            if name == "map" and len(args) == 1 and args[0][0] == "closure" and len(args[0][1]) == 1:
+                b, v, tv = self.expr(recv, env)
+                par, body = args[0][1][0], args[0][2]
+                if tv == "opt_u64" and body == ("deref", ("var", par)):
+                    return b, v, tv                                   # .map(|a| *a) : a copy of the value
+                if tv.startswith("opt_struct:") and body[0] == "field" and body[1] == ("var", par):
+                    sn = tv[11:]
+                    ft = dict(self.structs[sn]).get(body[2])
+                    if ft == "u64":
+                        return b, "(option_map (fun v_ => %s) %s)" % (self.proj(sn, body[2], "v_"), v), "opt_u64"
+                raise GenError(".map(|%s| ..) of this shape on a %s is outside the fragment" % (par, tv))
+            if name == "map_or" and len(args) == 2 and args[1][0] == "closure" and len(args[1][1]) == 1:
+                b, v, tv = self.expr(recv, env)
+                par, body = args[1][1][0], args[1][2]
+                if tv in ("opt_u32", "opt_u64") and body[0] == "mcall" and body[1] == ("var", par) \
+                        and body[2] in ("min", "max") and len(body[3]) == 1:
+                    inner_ = tv[4:]
+                    b2, d_, td = self.expr(args[0], env, inner_)          # the default is evaluated whether or not it is used
+                    env_c = dict(env)
+                    env_c[self.binder(par, env=env)] = inner_
+                    b3, x_, tx_ = self.expr(body[3][0], env_c, inner_)
+                    if td != inner_ or tx_ != inner_ or b3:
+                        raise GenError("map_or on %s with %s / %s" % (tv, td, tx_))
+                    return b + b2, "(match %s with Some %s => N.%s %s %s | None => %s end)" % (v, par, body[2], par, x_, d_), inner_
+                raise GenError(".map_or(..) of this shape on a %s is outside the fragment" % tv)
+            if name == "unwrap_or" and len(args) == 1:
+                save_ = self.tmp
+                b, v, tv = self.expr(recv, env)
+                if tv in ("opt_u64", "opt_u32"):
+                    inner_ = tv[4:]
+                    b2, c2, t2 = self.expr(args[0], env, inner_)
+                    if t2 != inner_:
+                        raise GenError("unwrap_or(%s) on %s" % (t2, tv))
+                    return b + b2, "(match %s with Some v_ => v_ | None => %s end)" % (v, c2), inner_
+                self.tmp = save_
+            if name in ("checked_add", "checked_sub") and len(args) == 1:
+                b1, a, ta = self.expr(recv, env)
+                b2, c, tc = self.expr(args[0], env, ta)
+                if ta != "u64" or tc != "u64":
+                    raise GenError("%s on %s and %s" % (name, ta, tc))
+                return b1 + b2, "(%s %s %s)" % ({"checked_add": "add_checked", "checked_sub": "sub_checked"}[name], a, c), "opt_u64"
+            if recv[0] == "var" and env.get(recv[1], "").startswith("dyn:") and name in self.validator_calls:
+                head_, m2, kind = self.validator_calls[name]
+                if recv[1] in self.rebound:
+                    raise GenError("%s is not the validator parameter here" % recv[1])
+                bs, cs = self.call_args(name, args, m2, env)
+                x = self.fresh()
+                if kind == "bool":
+                    return bs + [(x, " ".join([head_] + cs))], x, "res_bool"      # Result<(), _> as bool: true = Ok
+                if m2["ret"].startswith("result"):
+                    raise GenError("a Result of .%s(..) that is not followed by `?` is outside the fragment" % name)
+                return bs + [(x, " ".join([head_] + cs))], x, m2["ret"]
             if name == "unwrap_or" and len(args) == 1:
                 b, v, tv = self.expr(recv, env)
                 if tv.startswith("opt_struct:"):
@@ -1852,7 +2095,7 @@ class GenR(Gen):
                 return b, "(%s_of %s)" % (name, v), "bool"
             if name == "is_empty" and not args:
                 b, v, tv = self.expr(recv, env)
-                if not tv.startswith("vec:"):
+                if not (tv.startswith("vec:") or tv in ("vec_id", "set") or tv.startswith("map:")):
                     raise GenError(".is_empty() on a %s is outside the fragment" % tv)
                 return b, "(is_empty_of %s)" % v, "bool"
             if name == "to_string" and not args and recv[0] == "str":
@@ -1912,10 +2155,10 @@ class GenR(Gen):
                 return b, v, tv                   # a borrow / a copy of an opaque value is the value
             if (name == "unwrap" and not args) or (name == "expect" and len(args) == 1 and args[0][0] == "str"):
                 b, v, tv = self.expr(recv, env)
-                if tv != "opt_id":
+                if tv not in ("opt_id", "opt_u64"):
                     raise GenError(".%s() of a %s is outside the fragment" % (name, tv))
                 x = self.fresh()
-                return b + [(x, "expect_some %s" % v)], x, "id"
+                return b + [(x, "expect_some %s" % v)], x, tv[4:]
             if not (recv == ("var", "self") and self.owner == self.validator):
                 b, v, tv = self.expr(recv, env)
                 if tv.startswith("struct:") and (tv[7:], name) in self.coq_fn:
@@ -1932,6 +2175,19 @@ class GenR(Gen):
                     x = self.fresh()
                     return b + bs + [(x, " ".join(["gen_%s_%s prof" % (tv[7:], name)] + extra + [v] + cs))], x, m2["ret"]
             raise GenError("method call .%s(..) is outside the fragment" % name)
+        if k == "match_pair":
+            b1, a, ta = self.expr(e[1], env)
+            b2, c, tc = self.expr(e[2], env)
+            if ta not in ("opt_u32", "opt_u64") or tc != ta:
+                raise GenError("match on a pair of %s and %s is outside the fragment" % (ta, tc))
+            env2 = dict(env)
+            env2[self.binder(e[3], env=env)] = ta[4:]
+            env2[self.binder(e[4], env=env)] = ta[4:]
+            bv1, v1, t1 = self.expr(e[5], env2)
+            bv2, v2, t2 = self.expr(e[6], env, t1)
+            if bv1 or bv2 or t1 != t2:
+                raise GenError("match arms of types %s and %s (or arms that can panic) are outside the fragment" % (t1, t2))
+            return b1 + b2, "(match %s, %s with Some %s, Some %s => %s | _, _ => %s end)" % (a, c, e[3], e[4], v1, v2), t1
         if k == "try":
             return self.try_expr(e[1], env)
         if k == "bin" and e[1] in ("&&", "||"):
@@ -2065,6 +2321,14 @@ class GenR(Gen):
             inner = inner[1]
             if not (inner[0] == "mcall" and inner[1] == ("var", "self")):
                 raise GenError("map_err on anything but a call of a translated method is outside the fragment")
+        if inner[0] == "mcall" and inner[1][0] == "var" and env.get(inner[1][1], "").startswith("dyn:") \
+                and inner[2] in self.validator_calls and self.validator_calls[inner[2]][2] == "tagged":
+            head_, m2, _ = self.validator_calls[inner[2]]
+            if m2["ret"] != "result_unit" or inner[1][1] in self.rebound:
+                raise GenError("`?` on %s.%s(..) is outside the fragment" % (inner[1][1], inner[2]))
+            bs, cs = self.call_args(inner[2], inner[3], m2, env)
+            x = self.fresh()
+            return bs + [(x, " ".join([head_] + cs), "tryR")], x, "unit"
         for ast, vars_, pname, pty in self.opaque:
             if inner == ast and pty.startswith("comp:"):
                 # the answer of a method that is translated elsewhere, on exactly the parameters of this function
@@ -2151,9 +2415,20 @@ class GenR(Gen):
                 tgt = s[1]
                 if tgt[0] == "deref" and tgt[1][0] == "var" and tgt[1][1] in self.guards:
                     continue
+                if tgt[0] == "field" and tgt[1] == ("var", "self") and self.cur.get("selfmode") == "mut":
+                    out.append("self")
+                    continue
                 if tgt[0] != "var":
                     raise GenError("assignment target %r is outside the fragment" % (tgt,))
                 out.append(tgt[1])
+            elif s[0] == "expr" and s[1][0] == "mcall" and s[1][1][0] == "var" and s[1][2] in ("extend", "push", "insert") \
+                    and s[1][1][1] in getattr(self, "collections", ()):
+                out.append(s[1][1][1])
+            elif s[0] == "expr" and s[1][0] == "mcall" and s[1][2] == "insert" and s[1][1][0] == "field" \
+                    and s[1][1][1] == ("var", "self") and self.cur.get("selfmode") == "mut":
+                out.append("self")
+            elif s[0] == "iflet_err":
+                out += self.assigned2(s[3][0])
             elif s[0] in ("if_stmt",):
                 out += self.assigned2(s[2][0])
             elif s[0] == "ifelse_stmt":
@@ -2182,6 +2457,37 @@ class GenR(Gen):
             return k(env)
         s, rest = ss[0], ss[1:]
         kind = s[0]
+        if kind in ("if_stmt", "ifelse_stmt", "iflet_err") and self.tagged() and not self.pure:
+            blocks = [s[3]] if kind == "iflet_err" else ([s[2]] + ([s[3]] if kind == "ifelse_stmt" else []))
+            carried = []
+            for blk in blocks:
+                for v_ in self.assigned2(blk[0]):
+                    if v_ not in carried:
+                        carried.append(v_)
+            if kind == "iflet_err" or carried:
+                # the variable the branches assign is the value of the statement
+                if len(carried) > 1 or any(v_ not in env for v_ in carried) or any(blk[1] is not None for blk in blocks):
+                    raise GenError("a conditional that assigns more than one variable, or has a value, is outside the fragment")
+                if kind == "iflet_err":
+                    b, c, t = self.expr(s[2], env)
+                    if t != "res_bool":
+                        raise GenError("`if let Err(..)` on a %s is outside the fragment" % t)
+                    c = "(negb %s)" % c
+                    env_t = dict(env)
+                    env_t[self.binder(s[1], env=env)] = "id"        # the error, only formatted
+                else:
+                    b, c, t = self.expr(s[1], env)
+                    if t != "bool":
+                        raise GenError("if on a non-boolean")
+                    env_t = env
+                ret = "Val (OkR %s)" % carried[0] if carried else "Val (OkR tt)"
+                self.depth += 1
+                then_t = self.stmts(blocks[0][0], env_t, lambda e2: ret)
+                else_t = self.stmts(blocks[1][0], env, lambda e2: ret) if len(blocks) > 1 else ret
+                self.depth -= 1
+                x = carried[0] if carried else self.fresh()
+                return self.emit_binds(b, "%s <-? (if %s\nthen (%s)\nelse (%s)) ;;\n%s" % (
+                    x, c, then_t, else_t, self.stmts(rest, env, k)))
         if kind == "let":
             x, ty, e = s[1], s[2], s[3]
             if e[0] == "macro" and e[1] == "scoped_debug_return":
@@ -2190,6 +2496,47 @@ class GenR(Gen):
                     raise GenError("a debugging guard bound to a pattern is outside the fragment")
                 self.guards.add(x)
                 return self.stmts(rest, {a: b for a, b in env.items() if a != x}, k)
+            if not isinstance(x, str) and e[0] == "iflet" and self.tagged() and not self.pure:
+                # let (a, b) = if let Some(p) = opt { stmts; value } else { value };  - the blocks may leave the function
+                b0, c0, t0 = self.expr(e[2], env)
+                if not (t0.startswith("opt_struct:") or t0 == "opt_id"):
+                    raise GenError("if let Some(..) on a %s is outside the fragment" % t0)
+                env_s = dict(env)
+                env_s[self.binder(e[1], env=env)] = "struct:" + t0[11:] if t0.startswith("opt_struct:") else "id"
+                self.rebound.add(e[1])
+                box = {}
+
+                def vblock(blk, env_a):
+                    ss_, tail_ = blk
+                    if tail_ is None:
+                        raise GenError("a block used as a value has no value")
+                    if self.assigned2(ss_):
+                        raise GenError("a value block that assigns a variable of the enclosing block is outside the fragment")
+
+                    def kk(env2):
+                        bb, cc, tt = self.expr(tail_, env2)
+                        box.setdefault("t", tt)
+                        if box["t"] != tt:
+                            raise GenError("branches of type %s and %s" % (box["t"], tt))
+                        return self.emit_binds(bb, "Val (OkR %s)" % cc)
+                    self.depth += 1
+                    try:
+                        return self.stmts(ss_, env_a, kk)
+                    finally:
+                        self.depth -= 1
+                some_t = vblock(e[3], env_s)
+                none_t = vblock(e[4], env)
+                t = box["t"]
+                parts = t[6:].split(",") if t.startswith("tuple:") else []
+                if len(parts) != len(x[1]) or ty is not None:
+                    raise GenError("let %r = a value of type %s is outside the fragment" % (x[1], t))
+                env2 = dict(env)
+                for n_, t_ in zip(x[1], parts):
+                    env2[self.binder(n_, env=env)] = t_
+                    self.rebound.add(n_)
+                y = self.fresh()
+                return self.emit_binds(b0, "%s <-? (match %s with\n| Some %s => (%s)\n| None => (%s)\nend) ;;\nlet '(%s) := %s in\n%s" % (
+                    y, c0, e[1], some_t, none_t, ", ".join(x[1]), y, self.stmts(rest, env2, k)))
             if isinstance(x, str) and e[0] == "match_val":
                 # let x = match opt { Some(y) => value, None => transaction_format_err!(..) };  (or the arms swapped):
                 # one arm has the value, the other leaves the function with an error
@@ -2246,6 +2593,8 @@ class GenR(Gen):
             self.rebound.add(x)
             env2 = dict(env)
             env2[x] = t
+            if t in ("set", "vec_id"):
+                self.collections.add(x)
             return self.emit_binds(b, "let %s := %s in\n%s" % (x, c, self.stmts(rest, env2, k)))
         if kind == "assign":
             tgt, rhs = s[1], s[2]
@@ -2260,6 +2609,14 @@ class GenR(Gen):
                 if t != env[tgt[1]]:
                     raise GenError("%s: %s assigned a %s" % (tgt[1], env[tgt[1]], t))
                 return self.emit_binds(b, "let %s := %s in\n%s" % (tgt[1], c, self.stmts(rest, env, k)))
+            if tgt[0] == "field" and tgt[1] == ("var", "self") and self.cur.get("selfmode") == "mut" and self.owner != self.validator:
+                ft = dict(self.structs[self.owner]).get(tgt[2])
+                if ft is None:
+                    raise GenError("self.%s: no such field, or its type is outside the fragment" % tgt[2])
+                b, c, t = self.expr(rhs, env, ft)
+                if t != ft:
+                    raise GenError("self.%s: %s assigned a %s" % (tgt[2], ft, t))
+                return self.emit_binds(b, "let self := %s in\n%s" % (self.set_field(tgt[2], c), self.stmts(rest, env, k)))
             raise GenError("assignment target %r is outside the fragment" % (tgt,))
         if kind == "expr":
             e = s[1]
@@ -2282,8 +2639,11 @@ class GenR(Gen):
                 args = e[2]
                 if not self.tagged() or self.pure:
                     raise GenError("policy_err! outside the body of a function that returns Result<(), _>")
-                if len(args) < 3 or args[0] != [("id", "self")] or self.owner != self.validator:
-                    raise GenError("policy_err! needs (self, tag, format string, ..) in a method of the validator")
+                obj_ok = args and ((args[0] == [("id", "self")] and self.owner == self.validator) or
+                                   (len(args[0]) == 1 and args[0][0][0] == "id" and env.get(args[0][0][1], "").startswith("dyn:Validator")
+                                    and args[0][0][1] not in self.rebound))
+                if len(args) < 3 or not obj_ok:
+                    raise GenError("policy_err! needs (self | the validator parameter, tag, format string, ..)")
                 pp = P(list(args[1]) + [("eof", "")], self.known)
                 tagex = pp.expr()
                 if pp.peek()[0] != "eof":
@@ -2297,6 +2657,32 @@ class GenR(Gen):
             if e[0] == "try":
                 b, c, t = self.expr(e, env)
                 return self.emit_binds(b, self.stmts(rest, env, k))
+            if e[0] == "mcall" and e[1][0] == "var" and e[1][1] in self.collections and e[1][1] in env and len(e[3]) == 1:
+                x_, tx_ = e[1][1], env[e[1][1]]
+                if e[2] == "push" and tx_ == "vec_id":
+                    b_, c_, t_ = self.expr(e[3][0], env)
+                    if t_ != "id":
+                        raise GenError("push of a %s onto a vector of opaque values" % t_)
+                    return self.emit_binds(b_, "let %s := vec_push %s %s in\n%s" % (x_, x_, c_, self.stmts(rest, env, k)))
+                if e[2] == "extend" and tx_ == "set" and e[3][0][0] == "mcall" and e[3][0][2] == "keys" and not e[3][0][3]:
+                    b_, c_, t_ = self.expr(e[3][0][1], env)
+                    if not t_.startswith("map:"):
+                        raise GenError("extend with the keys of a %s" % t_)
+                    return self.emit_binds(b_, "let %s := set_extend %s (map_keys %s) in\n%s" % (x_, x_, c_, self.stmts(rest, env, k)))
+                raise GenError("update .%s(..) of %s is outside the fragment" % (e[2], x_))
+            if e[0] == "mcall" and e[2] == "insert" and len(e[3]) == 2 and e[1][0] == "field" and e[1][1] == ("var", "self") \
+                    and self.cur.get("selfmode") == "mut" and self.owner != self.validator:
+                f_ = e[1][2]
+                ft = dict(self.structs[self.owner]).get(f_, "")
+                if not ft.startswith("map:"):
+                    raise GenError("self.%s.insert(..) on a %s is outside the fragment" % (f_, ft))
+                b1, k_, tk = self.expr(e[3][0], env)
+                b2, v_, tv_ = self.expr(e[3][1], env, ft[4:])
+                if tk != "id" or tv_ != ft[4:]:
+                    raise GenError("insert of (%s, %s) into a %s" % (tk, tv_, ft))
+                # the returned Option (the previous value) is discarded
+                return self.emit_binds(b1 + b2, "let self := %s in\n%s" % (
+                    self.set_field(f_, "(map_insert %s %s %s)" % (self.proj(self.owner, f_, "self"), k_, v_)), self.stmts(rest, env, k)))
             sp = self.state_param()
             if e[0] == "mcall" and sp and e[1] == ("var", sp) and env.get(sp, "").startswith("struct:") \
                     and (env[sp][7:], e[2]) in self.coq_fn and self.methods2[(env[sp][7:], e[2])]["selfmode"] == "mut":
@@ -2324,11 +2710,29 @@ class GenR(Gen):
                 raise GenError("attribute #[%s] on a statement that is not logging is outside the fragment" % s[1])
             self.logging_ok(inner[1], env)
             return self.stmts(rest, env, k)
+        if kind == "iflet_stmt" and not isinstance(s[1], str):
+            # if let Some((a, b)) = e { block }
+            if not self.tagged() or self.pure or self.assigned2(s[3][0]):
+                raise GenError("an `if let Some((..))` that assigns, or outside a function that returns Result, is outside the fragment")
+            b, c, t = self.expr(s[2], env)
+            parts = t[10:].split(",") if t.startswith("opt:tuple:") else []
+            if len(parts) != len(s[1][1]):
+                raise GenError("`if let Some((..))` with %d components on a %s" % (len(s[1][1]), t))
+            env_s = dict(env)
+            for n_, t_ in zip(s[1][1], parts):
+                env_s[self.binder(n_, env=env)] = t_
+                self.rebound.add(n_)
+            self.depth += 1
+            some_t = self.stmts(s[3][0], env_s, lambda e2: "Val (OkR tt)")
+            self.depth -= 1
+            x = self.fresh()
+            return self.emit_binds(b, "%s <-? (match %s with\n| None => Val (OkR tt)\n| Some (%s) => (%s)\nend) ;;\n%s" % (
+                x, c, ", ".join(s[1][1]), some_t, self.stmts(rest, env, k)))
         if kind == "iflet_stmt":
             # if let Some(x) = &opt { only logging } : dropped.  The block may bind the results of the listed helpers
             # (lazy iterators over the HTLC lists), which only the log lines consume.
             b, c, t = self.expr(s[2], env)
-            if s[3][1] is not None or not (t == "opt_id" or t.startswith("opt_struct:")):
+            if s[3][1] is not None or not (t in ("opt_id", "opt_u32", "opt_u64") or t.startswith("opt_struct:")):
                 raise GenError("`if let Some(..)` on a %s, or with a value, is outside the fragment" % t)
 
             def logs_only(st):
@@ -2339,19 +2743,21 @@ class GenR(Gen):
             if not b and s[3][0] and all(logs_only(st) for st in s[3][0]):
                 return self.stmts(rest, env, k)
             # if let Some(x) = &opt { block } : the block for Some, nothing for None
-            if not self.tagged() or self.pure:
-                raise GenError("an `if let` statement outside the body of a function that returns Result")
-            if self.assigned2(s[3][0]):
-                raise GenError("an `if let` block that assigns a variable of the enclosing block is outside the fragment")
+            if self.pure or not (self.tagged() or self.cur.get("selfmode") == "mut"):
+                raise GenError("an `if let` statement outside the body of a function that returns Result or updates self")
+            carried = self.assigned2(s[3][0])
+            if len(carried) > 1 or any(c_ != "self" and c_ not in env for c_ in carried):
+                raise GenError("an `if let` block that assigns more than one variable of the enclosing block is outside the fragment")
             env_s = dict(env)
-            env_s[self.binder(s[1], env=env)] = "id" if t == "opt_id" else "struct:" + t[11:]
+            env_s[self.binder(s[1], env=env)] = {"opt_id": "id", "opt_u32": "u32", "opt_u64": "u64"}.get(t) or "struct:" + t[11:]
             self.rebound.add(s[1])
+            ret = ("Val (OkR %s)" if self.tagged() else "Val %s") % (carried[0] if carried else "tt")
             self.depth += 1
-            some_t = self.stmts(s[3][0], env_s, lambda e2: "Val (OkR tt)")
+            some_t = self.stmts(s[3][0], env_s, lambda e2: ret)
             self.depth -= 1
-            x = self.fresh()
-            return self.emit_binds(b, "%s <-? (match %s with\n| None => Val (OkR tt)\n| Some %s => (%s)\nend) ;;\n%s" % (
-                x, c, s[1], some_t, self.stmts(rest, env, k)))
+            x = carried[0] if carried else self.fresh()
+            return self.emit_binds(b, "%s %s (match %s with\n| None => %s\n| Some %s => (%s)\nend) ;;\n%s" % (
+                x, "<-?" if self.tagged() else "<-", c, ret, s[1], some_t, self.stmts(rest, env, k)))
         if kind == "iflet_tuple":
             # if let (true, x) = e { block } : e is evaluated, the block runs when the literal components match
             if not self.tagged() or self.pure:
@@ -2436,6 +2842,33 @@ class GenR(Gen):
             var, it, body = s[1], s[2], s[3]
             if not self.tagged() or self.pure:
                 raise GenError("a loop outside the body of a function that returns Result<(), _>")
+            ordered = None
+            if it[0] == "mcall" and it[2] == "iter" and not it[3]:
+                save_ = self.tmp
+                b_, v_, t_ = self.expr(it[1], env)
+                self.tmp = save_
+                if t_ in ("set", "vec_id"):
+                    ordered = (b_, v_, t_)
+            if ordered is not None:
+                b, v, tset = ordered
+                if tset == "set":
+                    self.use_opaque("iter_order", "ordfn")
+                    v = "(iter_order %s)" % v          # a hash set is visited in an order the code does not choose
+                carried = self.assigned2(body)
+                if len(carried) > 1 or any(c_ not in env for c_ in carried):
+                    raise GenError("a loop that assigns more than one variable of the enclosing block is outside the fragment")
+                env_b = dict(env)
+                env_b[self.binder(var, env=env)] = "id"
+                self.rebound.add(var)
+                ret = "Val (OkR %s)" % carried[0] if carried else "Val (OkR tt)"
+                self.depth += 1
+                inner = self.stmts(body, env_b, lambda e2: ret)
+                self.depth -= 1
+                if carried:
+                    return self.emit_binds(b, "%s <-? fold_r (fun %s %s =>\n%s) %s %s ;;\n%s" % (
+                        carried[0], carried[0], var, inner, v, carried[0], self.stmts(rest, env, k)))
+                x = self.fresh()
+                return self.emit_binds(b, "%s <-? fold_r (fun _ %s =>\n%s) %s tt ;;\n%s" % (x, var, inner, v, self.stmts(rest, env, k)))
             if it[0] == "ref":
                 seq = it[1]
             elif it[0] == "mcall" and it[2] == "iter" and not it[3]:
@@ -2479,6 +2912,12 @@ class GenR(Gen):
         refused (see policy_err! / `?`)."""
         return self.cur.get("state_param")
 
+    def set_field(self, f, v):
+        """the record of the method's struct with field f replaced"""
+        sn = self.owner
+        mk = (self.coq_struct[sn][1].rsplit(".", 1)[0] + ".mk_" + sn) if sn in self.coq_struct and "." in self.coq_struct[sn][1] else "mk_" + sn
+        return "(%s %s)" % (mk, " ".join("(%s)" % v if g == f else self.proj(sn, g, "self") for g, _ in self.structs[sn]))
+
     def validator_head(self, name):
         fn = self.coq_fn.get((self.validator, name), "gen_%s" % name)
         return "%s prof warn policy" % fn if self.policy_struct else "%s prof warn" % fn
@@ -2512,13 +2951,24 @@ class GenR(Gen):
     def method2(self, owner, m):
         self.cur, self.owner = m, owner
         self.tmp, self.pure, self.depth, self.updated = 0, 0, 0, False
-        self.opaque_used, self.guards, self.rebound = [], set(), set()
+        self.opaque_used, self.guards, self.rebound, self.collections = [], set(), set(), set()
         m.pop("state_param", None)
         muts = [x for x in m.get("mut_params", []) if self.uses_update(m["body"], x)]
         if len(muts) > 1 or (muts and m["ret"] != "result_unit"):
             raise GenError("fn %s: more than one updated `&mut` parameter, or one in a function that does not return Result<(), _>" % m["name"])
         if muts:
             m["state_param"] = muts[0]
+        if m["selfmode"] == "mut" and owner != self.validator and m["ret"] == "unit":
+            # a `&mut self` method of a struct without a value: the updated record is the value
+            env = {}
+            for x, t in m["params"]:
+                env[self.binder(x)] = t
+            env["self"] = "struct:" + owner
+            body = self.stmts(m["body"][0] + ([("expr", m["body"][1])] if m["body"][1] is not None else []), env, lambda e2: "Val self")
+            self.sig_opaque[(owner, m["name"])] = list(self.opaque_used)
+            head = ["(prof : profile)"] + ["(%s : %s)" % (pn, self.coq_type(pt)) for pn, pt in self.opaque_used] + \
+                   ["(self : %s)" % self.coq_type("struct:" + owner)] + ["(%s : %s)" % (x, self.coq_type(t)) for x, t in m["params"]]
+            return "Definition gen_%s_%s %s : trap %s :=\n%s." % (owner, m["name"], " ".join(head), self.coq_type("struct:" + owner), indent(body))
         if m["selfmode"] != "ref":
             raise GenError("fn %s: only `&self` methods are inside the fragment" % m["name"])
         env = {}
@@ -2531,6 +2981,10 @@ class GenR(Gen):
         else:
             env["self"] = "struct:" + owner
             head = ["(prof : profile)"]
+            if any(t.startswith("dyn:Validator") for _, t in m["params"]):
+                # policy_err!(validator, ..) and the validator's translated methods need the filter and the policy
+                head += ["(warn : string -> bool)"] + \
+                        (["(policy : %s)" % self.coq_type("struct:" + self.policy_struct)] if self.policy_struct else [])
             name = "gen_%s_%s" % (owner, m["name"])
         body = self.block_value(m["body"], env, m)
         self.sig_opaque[(owner, m["name"])] = list(self.opaque_used)
@@ -3098,6 +3552,88 @@ def _generate_onchain(repo):
             "constants": {"DEFAULT_DEV_FLAGS": consts["DEFAULT_DEV_FLAGS"][1]}, "parameters": ["warn (the policy filter)"]}
 
 
+
+def generate_node_payments(repo):
+    try:
+        return _generate_node_payments(repo)
+    except (IndexError, KeyError, ValueError, TypeError, AttributeError, RecursionError, OSError) as e:
+        raise GenError("the source could not be read (%s: %s)" % (type(e).__name__, e))
+
+
+def _generate_node_payments(repo):
+    """Gen/NodePaymentsGen.v: NodeState::validate_payments with the RoutedPayment methods it uses and the validator's
+    validate_payment_cltv / enforce_balance; validate_payment_balance is the translation of Gen/PaymentsGen.v."""
+    core = os.path.join(repo, "vls-core", "src")
+    rd = lambda *p: open(os.path.join(core, *p)).read()
+    sv, nd, va, lib_ = rd("policy", "simple_validator.rs"), rd("node.rs"), rd("policy", "validator.rs"), rd("lib.rs")
+    check_error_helpers(core)
+    # the collection aliases of the prelude
+    flat = re.sub(r"\s+", " ", lib_)
+    for decl in ("pub use hashbrown::HashMap as Map;", "pub use hashbrown::HashSet as UnorderedSet;",
+                 "pub use alloc::collections::BTreeMap as OrderedMap;"):
+        if decl not in flat:
+            raise GenError("lib.rs: `%s` not found (what Map / UnorderedSet / OrderedMap are)" % decl)
+    if not re.search(r"\npub struct BalanceDelta\(pub u64, pub u64\);", va):
+        raise GenError("policy/validator.rs: `pub struct BalanceDelta(pub u64, pub u64);` not found")
+    pay = generate_payments(repo)                     # Gen/PaymentsGen.v and the order of its policy parameters
+    known_cp, structs_cp, _ = policy_decls(core)
+    known = dict(known_cp)
+    known.update({"RoutedPayment": "struct:RoutedPayment", "PaymentState": "struct:PaymentState", "NodeState": "struct:NodeState",
+                  "BalanceDelta": "struct:BalanceDelta", "UnorderedSet": "path", "Vec": "path"})
+    own = ["RoutedPayment", "PaymentState", "NodeState"]
+    structs = {n: struct_fields(nd, n, skip_unknown=True, known=known) for n in own}
+    structs["BalanceDelta"] = [("0", "u64"), ("1", "u64")]
+    structs["SimplePolicy"] = structs_cp["SimplePolicy"]
+    structs["PolicyDevFlags"] = structs_cp["PolicyDevFlags"]
+    plan = [("RoutedPayment", "is_no_incoming", nd, "impl RoutedPayment", "node.rs"),
+            ("RoutedPayment", "is_no_outgoing", nd, "impl RoutedPayment", "node.rs"),
+            ("RoutedPayment", "updated_incoming_outgoing", nd, "impl RoutedPayment", "node.rs"),
+            ("RoutedPayment", "incoming_outgoing", nd, "impl RoutedPayment", "node.rs"),
+            ("RoutedPayment", "get_cltv_bounds", nd, "impl RoutedPayment", "node.rs"),
+            ("RoutedPayment", "apply", nd, "impl RoutedPayment", "node.rs"),
+            ("SimpleValidator", "validate_payment_cltv", sv, "impl Validator for SimpleValidator", "policy/simple_validator.rs"),
+            ("SimpleValidator", "enforce_balance", sv, "impl Validator for SimpleValidator", "policy/simple_validator.rs"),
+            ("NodeState", "validate_payments", nd, "impl NodeState", "node.rs")]
+    methods, texts = {}, {}
+    for owner, n, src, header, _ in plan:
+        texts[(owner, n)] = method_source(src, None, n, header=header)
+        methods[(owner, n)] = P(lex(texts[(owner, n)]), known).fn()
+    bal = P(lex(method_source(sv, None, "validate_payment_balance", header="impl Validator for SimpleValidator"))).fn()
+    g = GenR(structs, {}, methods, {}, {}, [], "SimpleValidator", "SimplePolicy", known)
+    cp = "CommitmentPolicyGen."
+    g.coq_struct = {n: (cp + n, cp + n) for n in ("SimplePolicy", "PolicyDevFlags")}
+    g.new_fns = {"UnorderedSet::new": ("[]", "set"), "Vec::new": ("[]", "vec_id")}
+    pol_args = " ".join("(%sSimplePolicy_%s policy)" % (cp, f) for f in pay["policy_fields"])
+    g.validator_calls = {
+        "validate_payment_balance": ("PaymentsGen.gen_validate_payment_balance prof warn " + pol_args, bal, "bool"),
+        "validate_payment_cltv": ("gen_validate_payment_cltv prof warn policy", methods[("SimpleValidator", "validate_payment_cltv")], "tagged"),
+        "enforce_balance": ("gen_enforce_balance prof warn policy", methods[("SimpleValidator", "enforce_balance")], "plain")}
+    out = []
+    for n in ("BalanceDelta", "PaymentState", "RoutedPayment", "NodeState"):
+        where = "policy/validator.rs: a tuple struct" if n == "BalanceDelta" else "node.rs"
+        out.append("(* struct %s (%s): the fields whose types are inside the fragment *)\nRecord %s := mk_%s {\n%s\n}." % (
+            n, where, n, n, ";\n".join("  %s_%s : %s" % (n, f, g.coq_type(t)) for f, t in structs[n])))
+    for owner, n, _, header, where in plan:
+        out.append("(* %s::%s (%s, `%s`)\n%s *)\n%s" % (owner, n, where, header, "\n".join(
+            "   " + l for l in texts[(owner, n)].strip().replace("(*", "( *").replace("*)", "* )").splitlines()),
+            g.method2(owner, methods[(owner, n)])))
+    text = ("(** GENERATED by tools/gen_rustfn.py - do not edit.  Statement-by-statement translation of\n"
+            "      NodeState::validate_payments (whole body), RoutedPayment::is_no_incoming, ::is_no_outgoing,\n"
+            "      ::updated_incoming_outgoing, ::incoming_outgoing, ::get_cltv_bounds (node.rs),\n"
+            "      SimpleValidator::validate_payment_cltv, ::enforce_balance (policy/simple_validator.rs).\n"
+            "    Maps and sets are association lists / lists (Base/Rust.v); the hash set of payment hashes is visited in the order\n"
+            "    [iter_order], an uninterpreted parameter.  The `validator` object is the SimpleValidator: its\n"
+            "    validate_payment_balance is the translation of Gen/PaymentsGen.v (Result as bool), its policy the record of\n"
+            "    Gen/CommitmentPolicyGen.v.  Payment hashes and channel ids are opaque identities. *)\n"
+            "From Coq Require Import String.\nFrom VLS Require Export Base.Rust.\nFrom VLS Require Gen.PaymentsGen Gen.CommitmentPolicyGen.\n\n"
+            + "\n\n".join(out) + "\n")
+    outp = os.path.join(ROOT, "coq", "theories", "Gen", "NodePaymentsGen.v")
+    if not os.path.exists(outp) or open(outp).read() != text:
+        open(outp, "w").write(text)
+    return {"translated": ["%s::%s" % (o, n) for o, n, _, _, _ in plan], "payments": pay,
+            "parameters": ["iter_order (the order in which the hash set is visited)", "warn (the policy filter)"]}
+
+
 if __name__ == "__main__":
     repo = sys.argv[1] if len(sys.argv) > 1 else "/repo"
     print(generate_velocity(repo))
@@ -3110,3 +3646,4 @@ if __name__ == "__main__":
     print(generate_sweep(repo))
     print(generate_mutual_close(repo))
     print(generate_onchain(repo))
+    print(generate_node_payments(repo))
